@@ -6,6 +6,10 @@ directly to a function is invoked by that function (so a closure given to in_fra
 Guard functions are removed from the graph; any remaining non-trivial SCC is an unguarded recursion."""
 import sys
 
+import os
+
+RECORD = {}
+
 from ..mir import short_path
 from ..report import ok, bad, info, site, Floor
 from . import arith
@@ -224,6 +228,15 @@ def run_frame(prog, pred=None):
             obs.append(ok(RULE2, key, st, "reviewed structural recursion (function renamed or moved within its module)"))
         else:
             why = reviewed.get(key, {}).get("reason")
+            # a recorded finding covers the unguarded recursive calls counted when it was reviewed; one more (a guard removed
+            # from another arm of the same function) is a different violation with its own key
+            nrev = reviewed.get(key, {}).get("unguarded_sites")
+            if nrev is not None and len(unguarded) > nrev:
+                obs.append(bad(RULE2, key + ":additional-unguarded-call", site(f, unguarded[-1][1]["line"]),
+                               "%s has %d unguarded recursive call sites, %d were reviewed: a frame check / stack-growth guard was removed from a "
+                               "recursive call" % (short_path(p), len(unguarded), nrev)))
+            if os.environ.get("JRS_RECORD_FRAME_SITES") is not None:
+                RECORD[key] = len(unguarded)
             obs.append(bad(RULE2, key, site(f, unguarded[0][1]["line"]),
                            "%s calls itself (%d site(s)) without passing a frame check or a stack-growth point: recursion depth is controlled by the %s and "
                            "overflows the native stack (SIGABRT) instead of reporting a stack-overflow error" % (short_path(p), len(unguarded), why or "input")))
